@@ -1,10 +1,11 @@
 import CbiVerif.Lemmas.EvalLit
+import CbiVerif.Lemmas.EvalChar
 import CbiVerif.Lemmas.EvalArith
 import CbiVerif.Lemmas.ClimbProof
 /-! C02: composition — parse trees of the specification as trees of the generic climbing definition
     (well-formedness w.r.t. the GENERATED table, values, rendering), eager model value = lazy C value. -/
 namespace CbiVerif.EvalMain
-open CbiVerif.PP CbiVerif.Climb CbiVerif.CExpr CbiVerif.Eval CbiVerif.EvalBridge CbiVerif.EvalArith CbiVerif.EvalLit
+open CbiVerif.PP CbiVerif.Climb CbiVerif.CExpr CbiVerif.Eval CbiVerif.EvalBridge CbiVerif.EvalArith CbiVerif.EvalLit CbiVerif.EvalChar
 
 /-! ### the generated table -/
 
@@ -59,9 +60,9 @@ theorem leaf_num (args) (s : String) (v : Eval.Val) (rest : List Tok) (h : Eval.
     leafWith args (numTok s :: rest) = .ok (v, rest) := by
   simp [leafWith, numTok, h]
 
-theorem leaf_chr (args) (ch : Char) (rest : List Tok) :
-    leafWith args (chrTok (String.ofList [ch]) :: rest) = .ok (⟨false, ch.toNat⟩, rest) := by
-  simp [leafWith, chrTok, String.toList_ofList]
+theorem leaf_chr (args) (cs : List Char) (n : Int) (rest : List Tok) (h : characterValue cs = .ok n) :
+    leafWith args (chrTok (String.ofList cs) :: rest) = .ok (⟨false, n⟩, rest) := by
+  simp [leafWith, chrTok, String.toList_ofList, h]
 
 theorem leaf_ident (args) (n : String) (rest : List Tok) (h : noLP rest) :
     leafWith args (identTok n :: rest) = .ok (Eval.zero, rest) := by
@@ -71,9 +72,9 @@ theorem leaf_ident (args) (n : String) (rest : List Tok) (h : noLP rest) :
     simp only [noLP] at h
     simp [leafWith, identTok, h]
 
-/-- constants are legal, have a C value, and are outside the recorded classes D6 / D8 -/
+/-- constants are legal, have a C value, and are outside the recorded class D8 -/
 def leavesOK (a : CExpr.Ast) : Prop :=
-  a.constsOK = true ∧ usesEscapedChar a = false ∧ usesBigUnsuffixed a = false
+  a.constsOK = true ∧ usesBigUnsuffixed a = false
 
 theorem litVal_spec (l : Lit) (hv : l.valid = true) (v : CExpr.Val) (hc : cLiteral l = some v)
     (hk : bigUnsuffixed l = false) : Eval.literal l.spell = .ok (litVal l) ∧ litVal l = mval v := by
@@ -86,14 +87,14 @@ theorem toClimb_rbound (env : Env) (a : CExpr.Ast) (h : 2 ≤ a.level) : (toClim
   rw [rbound_eq _ (by rw [toClimb_level]; exact h), toClimb_level]
 theorem prec_ge_two (op : BinOp) : 2 ≤ op.prec := by cases op <;> decide
 
-/-- a grammatical tree with legal constants outside D6/D8 is well-formed for the climbing parser
+/-- a grammatical tree with legal constants outside D8 is well-formed for the climbing parser
     driven by the generated table -/
 theorem toClimb_wf (env : Env) (n : Nat) (a : CExpr.Ast) (hg : a.grammatical = true) (hl : leavesOK a) :
     (toClimb env a).WF (opsN n) := by
   obtain ⟨args, hargs⟩ := ops_leaf n
   induction a with
   | lit l =>
-    obtain ⟨hc, _, hk⟩ := hl
+    obtain ⟨hc, hk⟩ := hl
     simp only [Ast.constsOK, Bool.and_eq_true, Option.isSome_iff_exists] at hc
     obtain ⟨hv, v, hcv⟩ := hc
     have hlit := (litVal_spec l hv v hcv (by simpa [usesBigUnsuffixed, bigUnsuffixed] using hk)).1
@@ -101,15 +102,14 @@ theorem toClimb_wf (env : Env) (n : Nat) (a : CExpr.Ast) (hg : a.grammatical = t
     intro rest _
     rw [hargs]; exact leaf_num args _ _ rest hlit
   | chr c =>
-    obtain ⟨hc, hk, _⟩ := hl
-    cases c with
-    | plain ch =>
-      refine ⟨⟨chrTok _, [], rfl, by simp [chrTok], by simp [isPunct, chrTok]⟩, ?_⟩
-      intro rest _
-      rw [hargs]; exact leaf_chr args ch rest
-    | simple _ => simp [usesEscapedChar] at hk
-    | octal _ => simp [usesEscapedChar] at hk
-    | hex _ => simp [usesEscapedChar] at hk
+    obtain ⟨hc, _⟩ := hl
+    simp only [Ast.constsOK, Option.isSome_iff_exists] at hc
+    obtain ⟨v, hcv⟩ := hc
+    obtain ⟨hval, _⟩ := chr_spec c v hcv
+    have hcv2 : chrVal c = ⟨false, (mval v).v⟩ := by simp only [chrVal, hval]
+    refine ⟨⟨chrTok _, [], rfl, by simp [chrTok], by simp [isPunct, chrTok]⟩, ?_⟩
+    intro rest _
+    rw [hargs, hcv2]; exact leaf_chr args c.chars _ rest hval
   | ident nm =>
     refine ⟨⟨identTok nm, [], rfl, by simp [identTok], by simp [isPunct, identTok]⟩, ?_⟩
     intro rest hr
@@ -123,29 +123,27 @@ theorem toClimb_wf (env : Env) (n : Nat) (a : CExpr.Ast) (hg : a.grammatical = t
     · exact leaf_num args "0" _ rest literal_zero
     · exact leaf_num args "1" _ rest literal_one
   | paren a ih =>
-    exact ih hg ⟨hl.1, hl.2.1, hl.2.2⟩
+    exact ih hg ⟨hl.1, hl.2⟩
   | un op a ih =>
     simp only [Ast.grammatical, Bool.and_eq_true, decide_eq_true_eq] at hg
-    refine ⟨by rw [ops_unPrec]; exact unPrec_sym op, ih hg.1 ⟨hl.1, hl.2.1, hl.2.2⟩, by rw [toClimb_level]; exact hg.2⟩
+    refine ⟨by rw [ops_unPrec]; exact unPrec_sym op, ih hg.1 ⟨hl.1, hl.2⟩, by rw [toClimb_level]; exact hg.2⟩
   | bin op l r ihl ihr =>
     simp only [Ast.grammatical, Bool.and_eq_true, decide_eq_true_eq] at hg
     obtain ⟨⟨⟨hgl, hgr⟩, hll⟩, hlr⟩ := hg
-    obtain ⟨hc, hk1, hk2⟩ := hl
+    obtain ⟨hc, hk2⟩ := hl
     simp only [Ast.constsOK, Bool.and_eq_true] at hc
-    simp only [usesEscapedChar, Bool.or_eq_false_iff] at hk1
     simp only [usesBigUnsuffixed, Bool.or_eq_false_iff] at hk2
     have hp := prec_ge_two op
-    refine ⟨by rw [ops_binInfo]; exact binInfo_sym op, sym_ne_quest op, ihl hgl ⟨hc.1, hk1.1, hk2.1⟩, ihr hgr ⟨hc.2, hk1.2, hk2.2⟩,
+    refine ⟨by rw [ops_binInfo]; exact binInfo_sym op, sym_ne_quest op, ihl hgl ⟨hc.1, hk2.1⟩, ihr hgr ⟨hc.2, hk2.2⟩,
       by rw [toClimb_level]; exact hll, by rw [toClimb_level]; exact hlr, ?_⟩
     rw [toClimb_rbound env l (by omega)]; exact hll
   | tern c t e ihc iht ihe =>
     simp only [Ast.grammatical, Bool.and_eq_true, decide_eq_true_eq] at hg
     obtain ⟨⟨⟨hgc, hgt⟩, hge⟩, hlc⟩ := hg
-    obtain ⟨hc, hk1, hk2⟩ := hl
+    obtain ⟨hc, hk2⟩ := hl
     simp only [Ast.constsOK, Bool.and_eq_true] at hc
-    simp only [usesEscapedChar, Bool.or_eq_false_iff] at hk1
     simp only [usesBigUnsuffixed, Bool.or_eq_false_iff] at hk2
-    refine ⟨ihc hgc ⟨hc.1.1, hk1.1.1, hk2.1.1⟩, iht hgt ⟨hc.1.2, hk1.1.2, hk2.1.2⟩, ihe hge ⟨hc.2, hk1.2, hk2.2⟩,
+    refine ⟨ihc hgc ⟨hc.1.1, hk2.1.1⟩, iht hgt ⟨hc.1.2, hk2.1.2⟩, ihe hge ⟨hc.2, hk2.2⟩,
       by rw [toClimb_level]; exact hlc, ?_⟩
     rw [toClimb_rbound env c hlc]; omega
 
@@ -160,40 +158,32 @@ theorem utype_un (op : UnOp) (a : CExpr.Ast) : (CExpr.Ast.un op a).utype = unU o
   cases op <;> rfl
 
 theorem leavesOK_bin {op l r} (h : leavesOK (.bin op l r)) : leavesOK l ∧ leavesOK r := by
-  obtain ⟨hc, hk1, hk2⟩ := h
+  obtain ⟨hc, hk2⟩ := h
   simp only [Ast.constsOK, Bool.and_eq_true] at hc
-  simp only [usesEscapedChar, Bool.or_eq_false_iff] at hk1
   simp only [usesBigUnsuffixed, Bool.or_eq_false_iff] at hk2
-  exact ⟨⟨hc.1, hk1.1, hk2.1⟩, ⟨hc.2, hk1.2, hk2.2⟩⟩
+  exact ⟨⟨hc.1, hk2.1⟩, ⟨hc.2, hk2.2⟩⟩
 theorem leavesOK_tern {c t e} (h : leavesOK (.tern c t e)) : leavesOK c ∧ leavesOK t ∧ leavesOK e := by
-  obtain ⟨hc, hk1, hk2⟩ := h
+  obtain ⟨hc, hk2⟩ := h
   simp only [Ast.constsOK, Bool.and_eq_true] at hc
-  simp only [usesEscapedChar, Bool.or_eq_false_iff] at hk1
   simp only [usesBigUnsuffixed, Bool.or_eq_false_iff] at hk2
-  exact ⟨⟨hc.1.1, hk1.1.1, hk2.1.1⟩, ⟨hc.1.2, hk1.1.2, hk2.1.2⟩, ⟨hc.2, hk1.2, hk2.2⟩⟩
+  exact ⟨⟨hc.1.1, hk2.1.1⟩, ⟨hc.1.2, hk2.1.2⟩, ⟨hc.2, hk2.2⟩⟩
 
 /-- the signedness of the evaluator's (eager, total) value is the static C type, also for operands
     whose C value is undefined -/
 theorem meval_unsigned (env : Env) (a : CExpr.Ast) (hl : leavesOK a) : (meval env a).unsigned = a.utype := by
   induction a with
   | lit l =>
-    obtain ⟨hc, _, hk⟩ := hl
+    obtain ⟨hc, hk⟩ := hl
     simp only [Ast.constsOK, Bool.and_eq_true, Option.isSome_iff_exists] at hc
     obtain ⟨hv, v, hcv⟩ := hc
     have h := (litVal_spec l hv v hcv (by simpa [usesBigUnsuffixed, bigUnsuffixed] using hk)).2
     simp only [meval, toClimb, Climb.Ast.eval, h, Ast.utype, hcv]; rfl
-  | chr c =>
-    obtain ⟨_, hk, _⟩ := hl
-    cases c with
-    | plain ch => rfl
-    | simple _ => simp [usesEscapedChar] at hk
-    | octal _ => simp [usesEscapedChar] at hk
-    | hex _ => simp [usesEscapedChar] at hk
+  | chr c => exact chrVal_unsigned c
   | ident nm => rfl
   | defd nm p => rfl
   | paren a ih => exact ih hl
   | un op a ih =>
-    rw [meval_un, applyUnary_unsigned, utype_un, ih ⟨hl.1, hl.2.1, hl.2.2⟩]
+    rw [meval_un, applyUnary_unsigned, utype_un, ih ⟨hl.1, hl.2⟩]
   | bin op l r ihl ihr =>
     obtain ⟨h1, h2⟩ := leavesOK_bin hl
     rw [meval_bin, applyBinary_unsigned, utype_bin, ihl h1, ihr h2]
@@ -229,30 +219,13 @@ theorem meval_spec (env : Env) (a : CExpr.Ast) (hl : leavesOK a) (v : CExpr.Val)
     meval env a = mval v := by
   induction a generalizing v with
   | lit l =>
-    obtain ⟨hc, _, hk⟩ := hl
+    obtain ⟨hc, hk⟩ := hl
     simp only [Ast.constsOK, Bool.and_eq_true] at hc
     simp only [cEval] at h
     exact (litVal_spec l hc.1 v h (by simpa [usesBigUnsuffixed, bigUnsuffixed] using hk)).2
   | chr c =>
-    obtain ⟨_, hk, _⟩ := hl
-    cases c with
-    | plain ch =>
-      simp only [cEval, cChar, CharLit.code] at h
-      split at h
-      · rename_i hr
-        simp only [Option.map_some, Option.some.injEq] at h
-        subst h
-        simp only [Bool.and_eq_true, decide_eq_true_eq] at hr
-        have h127 : ch.toNat < 127 := hr.1.1.2
-        have hlt : ¬ ch.toNat ≥ 128 := by omega
-        simp only [hlt, if_false, meval, toClimb, Climb.Ast.eval, chrVal, CharLit.chars, mval]
-        congr 1
-        simp only [Bool.false_eq_true, if_false, BitVec.toInt_ofInt, Int.bmod]
-        omega
-      · simp at h
-    | simple _ => simp [usesEscapedChar] at hk
-    | octal _ => simp [usesEscapedChar] at hk
-    | hex _ => simp [usesEscapedChar] at hk
+    simp only [cEval] at h
+    exact (chr_spec c v h).2
   | ident nm =>
     simp only [cEval, Option.some.injEq] at h; subst h
     simp [meval, toClimb, Climb.Ast.eval, mval, Eval.zero]
@@ -265,7 +238,7 @@ theorem meval_spec (env : Env) (a : CExpr.Ast) (hl : leavesOK a) (v : CExpr.Val)
     simp only [cEval] at h
     split at h
     · rename_i x hx
-      rw [meval_un, ih ⟨hl.1, hl.2.1, hl.2.2⟩ x hx]
+      rw [meval_un, ih ⟨hl.1, hl.2⟩ x hx]
       exact applyUnary_spec op x v h
     · simp at h
   | bin op l r ihl ihr =>
